@@ -9,7 +9,20 @@ use std::sync::Mutex;
 use std::sync::atomic::{AtomicBool, AtomicU64, Ordering};
 use std::time::Instant;
 
-pub const VERIF_DIR: &str = "/verif";
+/// Root of the verification tree: `$VERIF_DIR`, else the directory this executable was built
+/// in (`<root>/sim/target/release/nervus-sim`), else `/verif`.
+pub fn verif_dir() -> std::path::PathBuf {
+    if let Ok(d) = std::env::var("VERIF_DIR") {
+        return d.into();
+    }
+    if let Ok(exe) = std::env::current_exe()
+        && let Some(root) = exe.ancestors().nth(4)
+        && root.join("known_findings.json").exists()
+    {
+        return root.to_path_buf();
+    }
+    "/verif".into()
+}
 
 #[derive(Serialize, Deserialize, Clone, Debug, Default)]
 pub struct Case {
@@ -128,7 +141,7 @@ pub struct FindingsFile {
 }
 
 pub fn load_findings() -> FindingsFile {
-    let p = Path::new(VERIF_DIR).join("known_findings.json");
+    let p = verif_dir().join("known_findings.json");
     match std::fs::read_to_string(&p) {
         Ok(s) => serde_json::from_str(&s).unwrap_or_else(|e| {
             eprintln!("harness error: cannot parse {}: {e}", p.display());
@@ -390,7 +403,7 @@ pub fn write_replay(case: &Case, v: &Viol, dir: &str) -> PathBuf {
     c.schedule = v.schedule.clone();
     c.signature = Some(v.class.clone());
     c.detail = Some(v.detail.clone());
-    let d = Path::new(VERIF_DIR).join(dir);
+    let d = verif_dir().join(dir);
     let _ = std::fs::create_dir_all(&d);
     let cls: String = v.class.chars().map(|ch| if ch.is_ascii_alphanumeric() { ch } else { '_' }).take(60).collect();
     let p = d.join(format!("{}-{}-{}.json", case.property, cls, case.seed));
@@ -433,7 +446,7 @@ pub fn active_avoid() -> Vec<String> {
     for f in findings.findings.iter().filter(|f| f.status == "open") {
         let reproduces = match &f.replay {
             Some(rp) => {
-                let p = Path::new(VERIF_DIR).join(rp);
+                let p = verif_dir().join(rp);
                 match std::fs::read_to_string(&p).ok().and_then(|s| serde_json::from_str::<Case>(&s).ok()) {
                     Some(case) => match crate::checks::by_id(&case.property) {
                         Some(o) => reproduces_with_search(o, &case, f),
@@ -530,7 +543,7 @@ pub fn run_check(check: &dyn Check, tier: &str, master_seed: u64) -> RunSummary 
     for f in findings.findings.iter().filter(|f| f.status == "open") {
         let reproduces = match &f.replay {
             Some(rp) => {
-                let p = Path::new(VERIF_DIR).join(rp);
+                let p = verif_dir().join(rp);
                 match std::fs::read_to_string(&p).ok().and_then(|s| serde_json::from_str::<Case>(&s).ok()) {
                     Some(case) => {
                         let owner = crate::checks::by_id(&case.property);
@@ -563,7 +576,7 @@ pub fn run_check(check: &dyn Check, tier: &str, master_seed: u64) -> RunSummary 
     for f in mine.iter().filter(|f| f.status == "fixed") {
         // a fixed entry suppresses nothing; its replay must now pass
         if let Some(rp) = &f.replay {
-            let p = Path::new(VERIF_DIR).join(rp);
+            let p = verif_dir().join(rp);
             if let Some(case) = std::fs::read_to_string(&p).ok().and_then(|s| serde_json::from_str::<Case>(&s).ok()) {
                 let r = check.run_case(&case);
                 total.inc("fixed_replays_run");
@@ -731,7 +744,7 @@ pub fn write_evidence(
         "wall_s": wall,
         "violations": viols
     });
-    let d = Path::new(VERIF_DIR).join("evidence");
+    let d = verif_dir().join("evidence");
     let _ = std::fs::create_dir_all(&d);
     let p = d.join(format!("{}.json", check.id()));
     std::fs::write(&p, serde_json::to_string_pretty(&ev).unwrap()).expect("write evidence");
